@@ -426,6 +426,10 @@ def main():
         [("ifilt", "x", ">", 10), ("ofilt", "id", ">", 0), ("ofilt", "z", "<", 9), ("cols", ("z", "in")), ("ifilt", "y", "<", 31),
          ("child", "in"), ("icols", ("y",))],
         [("ofilt", "id", "<", "z"), ("ofilt", "z", ">", 7), ("child", "in"), ("ifilt", "x", "<", "y"), ("ichild", "x")],
+        # the very same inner clause before and after a column selection that moves the nested column
+        [("ifilt", "x", ">", 15), ("cols", ("in", "id")), ("ifilt", "x", ">", 15)],
+        [("ifilt", "y", "<", 31), ("cols", ("z", "in")), ("ifilt", "y", "<", 31), ("child", "in")],
+        [("cols", ("in", "z")), ("ifilt", "x", ">", 15)],
     ]
     for _ in range(150 if T == "quick" else 3000):
         ch = scripted_chains.pop(0) if scripted_chains else gen_nested_chain()
